@@ -1020,6 +1020,126 @@ impl Neighbors {
 }
 
 /// UDP datagrams (src, dst, sport, dport, payload) among the IP packets a node sent in one poll
+/// AnyIP: an interface with `set_any_ip(true)` accepts packets for any unicast address and answers
+/// from that address.  Node address sets: IPv4 only, IPv6 only, both; packets of both families
+/// arrive regardless (echo requests, UDP and TCP to closed ports; destinations: own, foreign
+/// unicast, all-nodes multicast, limited broadcast).  Every emitted frame is judged by the
+/// validator; the source rule accepts, besides the node's own addresses, any destination a packet
+/// was delivered to - and never a loopback, unspecified, multicast or broadcast source.
+pub fn scen_anyip(_idx: u64, rng: &mut Rng, ctx: &Ctx, focus: Focus) -> CaseOut {
+    let mut out = CaseOut::default();
+    let medium = if rng.bool() { Medium::Ip } else { Medium::Ethernet };
+    let fam = rng.below(3); // 0: IPv4 only, 1: IPv6 only, 2: both
+    let (mtu, cls) = pick_mtu(rng, medium, fam != 0);
+    let caps = caps_single(rng);
+    let prefill = *rng.pick(&[0xA5u8, 0xff, 0x00]);
+    let mut addrs = Vec::new();
+    if fam != 1 {
+        addrs.push(cidr(&Addr::V4(v4(1)), 24));
+    }
+    if fam != 0 {
+        addrs.push(cidr(&Addr::V6(ula_v6(1)), 64));
+    }
+    let mut n = Node::new("Y", medium, mtu, cls, caps, hw_for(medium, 1), &addrs, rng.next_u64(), prefill, false, focus);
+    n.verbose = ctx.verbose;
+    n.scenario = "anyip".into();
+    n.host.iface.set_any_ip(true);
+    n.any_ip_dsts = Some(Vec::new());
+    out.class(format!("anyip:{}:{}", if medium == Medium::Ip { "ip" } else { "eth" }, ["v4-only", "v6-only", "dual"][fam as usize]));
+    // AnyIP answers need a route for the foreign address space: everything via the peer
+    {
+        let r = n.host.iface.routes_mut();
+        let _ = r.add_default_ipv4_route(smoltcp::wire::Ipv4Address::new(192, 168, 69, 2));
+        let _ = r.add_default_ipv6_route(match Addr::V6(ula_v6(2)).to_smol() {
+            smoltcp::wire::IpAddress::Ipv6(a) => a,
+            _ => unreachable!(),
+        });
+    }
+    let mut wrap = Wrap::new(medium);
+    let mut t: Micros = 0;
+    let peer4 = Addr::V4(v4(2));
+    let peer6 = Addr::V6(ula_v6(2));
+    if medium == Medium::Ethernet {
+        // the peer introduces itself (ARP request / NS with source link-layer address)
+        let a = arp::build(&arp::Arp { op: arp::OP_REQUEST, sha: mac(2), spa: v4(2), tha: [0; 6], tpa: v4(1) });
+        n.inject("ARP request from the peer", eth::build(&eth::BROADCAST, &mac(2), eth::ETHERTYPE_ARP, &a));
+        let o = ula_v6(1);
+        let mut sol = [0xff, 2, 0, 0, 0, 0, 0, 0, 0, 0, 0, 1, 0xff, 0, 0, 0];
+        sol[13..].copy_from_slice(&o[13..]);
+        let ns = ndisc::build(&peer6, &Addr::V6(sol), ndisc::NS, 0, &o, Some(&mac(2).to_vec()));
+        let pkt = ip::build(&peer6, &Addr::V6(sol), ip::PROTO_ICMPV6, 255, &ns);
+        for f in wrap.frames(&pkt, None, 2) {
+            n.inject("NS from the peer", f);
+        }
+    }
+    n.poll(t, &mut out);
+    for _ in 0..ctx.n(12, 24) {
+        if n.dead {
+            break;
+        }
+        t += *rng.pick(&[300i64, 5_000, 200_000, 1_200_000]);
+        let v6 = rng.bool();
+        let src = if v6 { peer6 } else { peer4 };
+        let dst = match (rng.below(5), v6) {
+            (0, false) => Addr::V4(v4(1)),
+            (0, true) => Addr::V6(ula_v6(1)),
+            (1, false) => Addr::V4([192, 168, 69, 1 + 100 + rng.below(50) as u8]),
+            (1, true) => Addr::V6(ula_v6(100 + rng.below(50) as u8)),
+            (2, false) => Addr::V4([10, 20, rng.below(250) as u8, 1 + rng.below(250) as u8]),
+            (2, true) => {
+                let mut a = [0u8; 16];
+                a[0] = 0x20;
+                a[1] = 0x01;
+                a[2] = 0x0d;
+                a[3] = 0xb8;
+                a[15] = 1 + rng.below(250) as u8;
+                Addr::V6(a)
+            }
+            (3, false) => Addr::V4([224, 0, 0, 1]),
+            (3, true) => Addr::V6([0xff, 2, 0, 0, 0, 0, 0, 0, 0, 0, 0, 0, 0, 0, 0, 1]),
+            (_, false) => Addr::V4([255, 255, 255, 255]),
+            (_, true) => Addr::V6([0xff, 2, 0, 0, 0, 0, 0, 0, 0, 0, 0, 0, 0, 0, 0, 1]),
+        };
+        let pl_len = rng.urange(0, 40);
+        let pl = rng.bytes(pl_len);
+        let dport_off = rng.below(100) as u16;
+        let (proto, l4, what) = match rng.below(3) {
+            0 => {
+                let m = if v6 {
+                    crate::indep::x3::icmp::build6(&src, &dst, 128, 0, 0x4242, t as u16, &pl)
+                } else {
+                    crate::indep::x3::icmp::build4(8, 0, 0x4242, t as u16, &pl)
+                };
+                (if v6 { ip::PROTO_ICMPV6 } else { ip::PROTO_ICMP }, m, "echo request")
+            }
+            1 => (ip::PROTO_UDP, crate::indep::x3::udp::build(&src, &dst, 4000, 6000 + dport_off, &pl, true), "UDP to a closed port"),
+            _ => {
+                let seg = tcp_seg(rng, itcp::SYN, 4001, 7000 + dport_off, Vec::new());
+                (ip::PROTO_TCP, itcp::build(&src, &dst, &seg), "TCP SYN to a closed port")
+            }
+        };
+        let pkt = ip::build(&src, &dst, proto, 64, &l4);
+        if !dst.is_multicast() && !dst.is_limited_broadcast() {
+            if let Some(v) = n.any_ip_dsts.as_mut() {
+                if !v.contains(&dst) {
+                    v.push(dst);
+                }
+            }
+        }
+        let to_us = if dst.is_multicast() || dst.is_limited_broadcast() { None } else { Some(1) };
+        for f in wrap.frames(&pkt, to_us, 2) {
+            n.inject(&format!("{} {} -> {}", what, src, dst), f);
+        }
+        out.count("anyip_packets_injected", 1);
+        let frames = n.poll(t, &mut out);
+        out.count("anyip_frames_emitted", frames.len() as u64);
+        // neighbor discovery of the node is answered by the peer for its own addresses only
+        let _ = frames;
+    }
+    out.count("anyip_cases", 1);
+    out
+}
+
 fn udp_datagrams(medium: Medium, frames: &[Vec<u8>], reassembled: &[Vec<u8>]) -> Vec<(Addr, Addr, u16, u16, Vec<u8>)> {
     let mut v = Vec::new();
     let mut pkts: Vec<Vec<u8>> = frames.iter().filter_map(|f| unwrap_ip(medium, f)).collect();
